@@ -20,6 +20,8 @@ def check(repo: Repo, rep, tier):
     map_total(repo, rep)
     unmanaged_guard(repo, rep)
     star_freeze(repo, rep)
+    freeze_emits_nothing(repo, rep)
+    leaf_only_update(repo, rep)
     reeval_refresh(repo, rep)
     items_total(repo, rep)
 
@@ -165,10 +167,10 @@ def unmanaged_edges(site: Site, value_expr: ast.AST) -> List[Tuple[Node, str]]:
             continue
         if fn == "isinstance" and len(e.args) == 2 and "Unmanaged" in norm(e.args[1]):
             out.append((c, "F"))
-        elif fn.endswith("is_unmanaged"):
-            out.append((c, "F"))
-        elif fn.endswith("update_allowed"):
-            out.append((c, "T"))
+        # is_unmanaged(v) / update_allowed(v) are tests on *raw* values: the old values reaching an emission
+        # site were wrapped by map_unmanaged at entry (R-WRAP-AT-ENTRY) and an Unmanaged wrapper is not an
+        # instance of any registered unmanaged type, so those calls answer "managed" for every wrapped
+        # Is()/dirty-equals value - they are not accepted as the guard
     return out
 
 
@@ -550,3 +552,59 @@ def items_total(repo: Repo, rep):
             else:
                 rep.ok("R-ITEMS-TOTAL", m, r.ast, f"{c.name}.items returns every element")
     rep.floor("R-ITEMS-TOTAL", "return sites of items()", n, 5)
+
+
+def freeze_emits_nothing(repo: Repo, rep):
+    rep.rule(
+        "R-FREEZE-EMITS-NOTHING",
+        "in every adapter assign() the bail-out of a star-expression test (`return <old value>` after the star warning) is reachable only on paths that have "
+        "not yielded any change: a container with star-expressions is frozen as a whole, not after some of its elements were already edited",
+    )
+    n = 0
+    for f in repo.pkg_funcs():
+        if f.name != "assign" or not f.module.rel.startswith("_adapter/"):
+            continue
+        cfg = cfg_of(f)
+        old = f.params[1] if len(f.params) > 1 else None
+        ys = [x for x in cfg.live if x.is_yield]
+        for c in cfg.conds():
+            t = norm(c.ast)
+            if not (("Starred" in t and "isinstance" in t) or t.endswith("is None") and (".arg" in t or t.split(" ")[0] in ("key", "k"))):
+                continue
+            # the freeze return behind this test
+            tr = reach(cfg, [b for b, l in c.succ if l == "T"], skip_labels=("exc",))
+            rets = [x for x in tr if x.kind == "stmt" and isinstance(x.ast, ast.Return) and isinstance(x.ast.value, ast.Name) and x.ast.value.id == old]
+            for r in rets:
+                n += 1
+                before = [y for y in ys if r in reach(cfg, [b for b, _ in y.succ], skip_labels=("exc",)) and "warn" not in norm(y.ast)]
+                # yields that merely delegate to value_assign for a non-literal node are on other paths; only count yields that can precede this return
+                if before:
+                    rep.violation("R-FREEZE-EMITS-NOTHING", f, r.ast, f"{f.qualname} can reach the star-expression bail-out after it has already yielded `{short(before[0].ast, 50)}`: arguments before the `**`/`*` are edited although the call is to be left alone", construct=f"{f.qualname}:late-freeze")
+                else:
+                    rep.ok("R-FREEZE-EMITS-NOTHING", f, r.ast, "freeze before any change is yielded")
+    rep.floor("R-FREEZE-EMITS-NOTHING", "star bail-outs in assign()", n, 3)
+
+
+def leaf_only_update(repo: Repo, rep):
+    rep.rule(
+        "R-LEAF-ONLY-UPDATE",
+        "UndecidedValue._get_changes (update detection of never-compared snapshots) replaces only leaves: every Replace it emits is reachable only when the "
+        "value's adapter has no items() - a container is always descended into, never rewritten as a whole (its items may carry no nodes exactly because it "
+        "holds star-expressions)",
+    )
+    sites = [s for s in emission_sites(repo) if s.kind == "Replace" and s.func.key.startswith("_snapshot/undecided_value.py::")]
+    rep.floor("R-LEAF-ONLY-UPDATE", "Replace sites of the never-compared update", len(sites), 1)
+    for s in sites:
+        leaf_edges = []
+        for c in s.cfg.conds():
+            t = norm(c.ast)
+            if "hasattr" in t and "items" in t:
+                leaf_edges.append((c, "F"))
+            if t.endswith("is not None") and "adapter" in t:
+                leaf_edges.append((c, "F"))
+            if t.endswith("is None") and "adapter" in t:
+                leaf_edges.append((c, "T"))
+        if leaf_edges and edges_dominate(s.cfg, leaf_edges, s.node):
+            rep.ok("R-LEAF-ONLY-UPDATE", s.func, s.call, "Replace only for values without items()")
+        else:
+            rep.violation("R-LEAF-ONLY-UPDATE", s.func, s.call, f"{s.func.qualname} can replace a whole container (a value whose adapter has items()): a never-compared `snapshot([0 + 1, *rest()])` is rewritten to its literal value by update, star-expression included", construct="container-replace")
